@@ -797,7 +797,7 @@ def protocol_violations(paths):
             if e[0] == "atomic" and e[1] == "canceled" and e[2] == ("const", 1):
                 nxt_lock = next((x for x in ev[i:] if x[0] in ("lock", "trylock")), None)
                 if nxt_lock is not None and nxt_lock[0] == "trylock":
-                    for r in ("C19.cancel-lock", "C12.stream-switch"):
+                    for r in ("C19.cancel-lock", "C12.stream-switch", "C06.cancel-lock"):
                         add(r, "Nucleo::<T>::tick|flat|cancel-trylock", "after raising `canceled` tick makes a lock attempt that can time out: the cancellation's reason (pattern status, "
                             "restart) is consumed without the worker having been switched over", known)
         # cancellation is followed by its own phase
